@@ -45,7 +45,7 @@ THEOREMS = ["C15_id_is_manifest_hash", "C15_extid_parse", "C15_swhid_text_roundt
             "C15_extid_presence", "C15_extid_injective", "C15_emd_parse", "C15_context_lookup", "C15_fetcher_space_needed",
             "C15_optional_lines_exact", "C15_lines_per_field", "C15_emd_injective", "C15_constructor_normalises",
             "C15_date_second_only", "C15_context_admissible", "C15_keys_wf", "C15_authority_types_table", "C15_extid_satisfiable", "C15_emd_satisfiable",
-            "C15_swhid_printer_is_C08s"]
+            "C15_swhid_printer_is_C08s", "C15_naive_rejected", "C15_offsetless_refuted_old", "C15_bool_version_refuted_old"]
 RULE = ("ExtID: type strings (plain, empty, with space / newline, non-ASCII = rejected) x versions {0, 1, -1, +-2^70, random} x "
         "extid bytes (empty, newlines, leading space, binary) x 5 target types x payload pair {absent, both, half = rejected}. "
         "Metadata: 7 target kinds x every admissible subset of the context fields (167 combinations, enumerated from a table "
@@ -59,7 +59,14 @@ RULE = ("ExtID: type strings (plain, empty, with space / newline, non-ASCII = re
         "skipped calendar day; POSIX TZ strings with and without DST rules) via TZ + time.tzset(); every 4th metadata case is built "
         "under a second local zone too and the ids must be equal; about a quarter of the metadata dates lie within seconds / one "
         "hour / one local offset of a DST transition of the local zone (instants whose UTC wall-clock fields are a non-existent or "
-        "ambiguous local time); naive datetimes (no tzinfo) must be rejected with ValueError under every zone. "
+        "ambiguous local time); naive datetimes must be rejected with ValueError under every zone - naive = no tzinfo, OR a "
+        "tzinfo carrier whose utcoffset() returns None (always / only for the dates with an even day of the month: then rejected "
+        "exactly for those dates and otherwise the same object and id as with a fixed-offset zone) ; a carrier whose utcoffset() "
+        "raises yields no object (its exception propagates) ; an accepted naive date is additionally built under a second local "
+        "zone to exhibit the two ids. "
+        "INT FIELDS GIVEN AS bool / int SUBCLASS (routes int_as_bool, int_subclass): extid_version in {True, False, IntSub(v)} "
+        "(IntSub prints itself as 'two'), visit in {True, IntSub(v)}: either refused as a wrong-typed argument or the same manifest, "
+        "id and an equal object as with the plain int (False as version omits the line like 0; visit=False must be refused like 0). "
         "Added by the dimension audit: text and byte values with CR, CRLF, VT/FF/FS/GS/RS/NEL/U+2028/U+2029 (the other line "
         "boundaries of splitlines), TAB, NUL, header look-alikes, ~1 kB; origins that nearly start with 'swh:'; discovery dates in "
         "the first and the last day of the datetime range (0001-01-01, 9999-12-31: first/last microsecond and second, zone chosen "
@@ -88,8 +95,16 @@ ASSUMPTIONS = ["text fields are surrogate-free (otherwise .encode() raises: outs
                "the machine's local timezone is NOT an input of the model nor of the documented manifest: the expected manifest / id / "
                "normalised date of a case are the same under every local zone, and the implementation is required to agree under each "
                "zone of the pool (checked per case; zones absent from /usr/share/zoneinfo are dropped from the pool at import)",
-               "naive datetimes are not an input of the model (a datetime there is an instant + offset); on the implementation they must "
-               "be rejected with ValueError under every local zone (accepting one would make the id depend on the machine's zone)"]
+               "naive datetimes (tzinfo None, or a tzinfo giving no offset for that date) are the inputs DNaive / DOffsetless of the "
+               "model's mk_emd_in and are rejected there (C15_naive_rejected); on the implementation they must be rejected with "
+               "ValueError under every local zone (accepting one makes the id depend on the machine's zone: fixed finding "
+               "offsetless-tzinfo-accepted, C15_offsetless_refuted_old); a tzinfo whose utcoffset() raises is not a model input: "
+               "its exception must propagate (no object)",
+               "extid_version / visit have at most 4300 decimal digits: beyond, str(int) / '%d' raise ValueError (CPython's "
+               "int_max_str_digits); a bool or int subclass given for them is the same integer for the model (Z): fixed finding "
+               "bool-printed-as-True",
+               "an id passed explicitly to a constructor / from_dict is taken as it is (only check() compares it with the recomputed "
+               "hash): the routes exercised pass either no id or the correct one"]
 
 CORE = ["snp", "rel", "rev", "dir", "cnt"]
 EXT = CORE + ["ori", "emd"]
@@ -166,8 +181,9 @@ _TZ_IANA_DST = [z for z in ["America/New_York", "Europe/London", "Australia/Lord
                             "Europe/Dublin", "Pacific/Apia", "America/Sao_Paulo", "Asia/Tehran", "Asia/Kolkata", "UTC"]
                 if os.path.exists(os.path.join(_ZONEINFO, z))]
 EMD_ROUTES = ["from_dict", "git_object_dict", "old_schema", "roundtrip", "evolve", "recompute", "zoneinfo", "datetime_subclass",
-              "str_bytes_subclass", "from_dict_none_keys"]
-EXTID_ROUTES = ["roundtrip", "evolve", "recompute", "str_bytes_subclass"]
+              "str_bytes_subclass", "from_dict_none_keys", "int_as_bool", "int_subclass"]
+EXTID_ROUTES = ["roundtrip", "evolve", "recompute", "str_bytes_subclass", "int_as_bool", "int_subclass"]
+NAIVE_KINDS = ["tzinfo_none", "offset_none", "offset_sometimes", "offset_raises", "offset_sometimes"]
 _TRANSITIONS = {}
 
 
@@ -365,9 +381,22 @@ def gen_emd(rng, k):
         c["range_end"] = "min" if lo else "max"
         c.pop("near_transition", None)
     c["routes"] = [EMD_ROUTES[(k + j * 4) % len(EMD_ROUTES)] for j in range(3)]
+    if c["ttype"] == "ori" and "old_schema" not in c["routes"]:
+        c["routes"][0] = "old_schema"       # origin targets: the old rows name the origin by its URL
     c["zi"] = _TZ_IANA_DST[k % len(_TZ_IANA_DST)] if _TZ_IANA_DST else None
-    if k % 29 == 28:
-        c["naive"] = True       # no tzinfo at all: must be rejected whatever the local zone
+    if k % 13 == 12:
+        # a datetime without a UTC offset: no tzinfo at all / a tzinfo carrier giving no offset (always, for some dates) / raising
+        c["naive"] = NAIVE_KINDS[(k // 13) % len(NAIVE_KINDS)]
+        if c["tz2"] is None:
+            c["tz2"] = TZ_POOL[(k // 13 * 5 + 2) % len(TZ_POOL)]
+        if c["naive"] == "offset_sometimes" and "range_end" not in c and (k // 13) % 2:
+            # move the written date to the neighbouring day so that both parities of the day are met
+            day = 86400 * 10**6
+            if MIN_US + 2 * day < c["date"][0] < MAX_US - 2 * day:
+                c["date"] = [c["date"][0] + day, c["date"][1]]
+                c["alts"] = [[a[0] + day, a[1]] for a in c["alts"]]
+    if c["visit"] is not None and c["bad"] is None and k % 3 == 0:
+        c["visit"] = 1          # so that the int_as_bool route (visit=True) applies often enough
     return c
 
 
@@ -419,7 +448,7 @@ def classify(c):
     if c.get("near_transition"):
         ks.append("emd:near-local-dst-transition")
     if c.get("naive"):
-        ks.append("emd:naive-datetime")
+        ks.append("emd:no-offset-datetime:" + naive_kind(c) + (":rejected-expected" if naive_flow(c) else ":offset-given"))
     if c.get("range_end"):
         ks.append("emd:date-range-" + c["range_end"])
     texts = [c["url"], c["name"], c["version"], c["format"], c["origin"] or ""]
@@ -429,7 +458,7 @@ def classify(c):
         ks.append("emd:text-with-other-line-boundary")
     if b"\r" in bytes.fromhex(c["metadata"]) or c["path"] and b"\r" in bytes.fromhex(c["path"]):
         ks.append("emd:bytes-with-cr")
-    if not c.get("naive") and not c.get("bad"):
+    if not naive_flow(c) and not c.get("bad"):
         ks += ["emd:route=" + r for r in c.get("routes", [])]
     return ks
 
@@ -509,28 +538,255 @@ def extid_spec_manifest(c):
     return spec_manifest(b"extid", hs, None)
 
 
+# ------------------------------------------------------------------ datetimes without a UTC offset
+def _sometimes_none(d):
+    """the dates for which the 'offset_sometimes' carrier gives no offset: even day of the month (of the written date)"""
+    return d.day % 2 == 0
+
+
+class _TzNone(_dt.tzinfo):
+    """a tzinfo that never gives an offset: the datetime is naive although tzinfo is set"""
+
+    def utcoffset(self, d):
+        return None
+
+    def dst(self, d):
+        return None
+
+    def tzname(self, d):
+        return "no-offset"
+
+
+class _TzSometimes(_dt.tzinfo):
+    """a fixed offset, but none at all for some dates"""
+
+    def __init__(self, off_us=0):
+        self.off = _dt.timedelta(microseconds=off_us)
+
+    def utcoffset(self, d):
+        return None if _sometimes_none(d) else self.off
+
+    def dst(self, d):
+        return None
+
+    def tzname(self, d):
+        return "sometimes"
+
+
+class _TzRaises(_dt.tzinfo):
+    def utcoffset(self, d):
+        raise ArithmeticError("this zone cannot tell its offset")
+
+    def dst(self, d):
+        return None
+
+    def tzname(self, d):
+        return "raises"
+
+
+RAISES_CLASS = "Other(ArithmeticError)"
+
+
+def naive_kind(c):
+    n = c.get("naive")
+    return None if not n else "tzinfo_none" if n is True else n
+
+
+def wall_clock(date):
+    return EPOCH_NAIVE + _dt.timedelta(microseconds=date[0] + date[1])
+
+
+def naive_flow(c):
+    """True iff the discovery date of the case has no UTC offset (or its carrier raises): no object may come out"""
+    n = naive_kind(c)
+    if n is None:
+        return False
+    if n == "offset_sometimes":
+        return _sometimes_none(wall_clock(c["date"]))
+    return True
+
+
+def carrier_datetime(c, date):
+    """the written date of the case, carried by the tzinfo (or absence of one) the case names"""
+    n = naive_kind(c)
+    w = wall_clock(date)
+    if n == "tzinfo_none":
+        return w
+    if n == "offset_none":
+        return w.replace(tzinfo=_TzNone())
+    if n == "offset_sometimes":
+        return w.replace(tzinfo=_TzSometimes(date[1]))
+    return w.replace(tzinfo=_TzRaises())
+
+
+class _IntSub(int):
+    """an int subclass that prints itself in words: only '%d' / int() show the number"""
+
+    def __str__(self):
+        return "two"
+
+    __repr__ = __str__
+
+
 # ------------------------------------------------------------------ implementation
 def _core_swhid(t, i):
     from swh.model.swhids import CoreSWHID, ObjectType
     return CoreSWHID(object_type=ObjectType(t), object_id=bytes.fromhex(i))
 
 
-def _build_emd(c, date, variant=0, naive=False):
+class _Str(str):
+    """a str subclass (accepted by the isinstance-based type validators)"""
+
+
+class _Bytes(bytes):
+    """a bytes subclass"""
+
+
+class _DateTime(_dt.datetime):
+    """a datetime subclass"""
+
+
+LONG_TYPE = {"snp": "snapshot", "rel": "release", "rev": "revision", "dir": "directory", "cnt": "content", "ori": "origin",
+             "emd": "raw_extrinsic_metadata"}
+
+
+def _emd_dict(c, date, none_keys=False):
+    """the object as a hand-written dictionary in the schema of RawExtrinsicMetadata.from_dict"""
+    d = {"target": "swh:1:%s:%s" % (c["ttype"], c["tid"]), "discovery_date": mk_datetime(*date),
+         "authority": {"type": AUTH[c["authority"]], "url": c["url"]},
+         "fetcher": {"name": c["name"], "version": c["version"]},
+         "format": c["format"], "metadata": bytes.fromhex(c["metadata"])}
+    for f in CTX_ORDER:
+        v = c[f]
+        if v is None:
+            if none_keys:
+                d[f] = None
+            continue
+        d[f] = "swh:1:%s:%s" % (v[0], v[1]) if f in SWHID_CTX else bytes.fromhex(v) if f == "path" else v
+    return d
+
+
+def _emd_routes(c, o):
+    """other ways to the object o of case c: {route: {"id", "manifest", "eq"} | {"error"} | {"skip"}}"""
+    from swh.model import git_objects
+    from swh.model.model import RawExtrinsicMetadata
+    res = {}
+    us, off = c["date"]
+
+    def rec(name, f):
+        try:
+            r = f()
+            if r is not None:
+                res[name] = r
+        except Exception as e:
+            res[name] = {"error": exc_class(e)}
+
+    def obj(o2):
+        return {"id": o2.id.hex(), "manifest": git_objects.raw_extrinsic_metadata_git_object(o2).hex(), "eq": o2 == o and hash(o2) == hash(o)}
+
+    for name in c.get("routes", []):
+        if name == "from_dict":
+            rec(name, lambda: obj(RawExtrinsicMetadata.from_dict(_emd_dict(c, c["date"]))))
+        elif name == "from_dict_none_keys":
+            rec(name, lambda: obj(RawExtrinsicMetadata.from_dict(_emd_dict(c, c["date"], True))))
+        elif name == "git_object_dict":
+            def f():
+                with warnings.catch_warnings():
+                    warnings.simplefilter("ignore")
+                    return {"id": o.id.hex(), "manifest": git_objects.raw_extrinsic_metadata_git_object(_emd_dict(c, c["date"])).hex(), "eq": True}
+            rec(name, f)
+        elif name == "old_schema":
+            def f():
+                d = _emd_dict(c, c["date"])
+                d["type"] = LONG_TYPE[c["ttype"]]
+                if c["ttype"] == "ori":
+                    if len(c["url"].encode()) >= 2048:
+                        return {"skip": "url too long for an Origin"}
+                    d["target"] = c["url"]      # old rows name an origin by its URL; its id is the sha1 of the URL
+                    o2 = RawExtrinsicMetadata.from_dict(d)
+                    return {"id": o2.id.hex(), "manifest": git_objects.raw_extrinsic_metadata_git_object(o2).hex(), "eq": True,
+                            "expect_tid": hashlib.sha1(c["url"].encode()).hexdigest()}
+                return obj(RawExtrinsicMetadata.from_dict(d))
+            rec(name, f)
+        elif name == "roundtrip":
+            def f():
+                d = o.to_dict()
+                d.pop("id")
+                return obj(RawExtrinsicMetadata.from_dict(d))
+            rec(name, f)
+        elif name == "evolve":
+            def f():
+                other = _build_emd(c, c["alts"][2])                  # the object of another second ...
+                return obj(other.evolve(discovery_date=mk_datetime(*c["date"])))   # ... moved to this one: the id is recomputed
+            rec(name, f)
+        elif name == "recompute":
+            def f():
+                o.check()
+                o2 = _build_emd(c, c["date"], explicit_id=o.id)
+                o2.check()
+                return {"id": o.compute_hash().hex(), "manifest": git_objects.raw_extrinsic_metadata_git_object(o2).hex(),
+                        "eq": o2 == o and o2.id == o.id}
+            rec(name, f)
+        elif name == "zoneinfo":
+            def f():
+                import zoneinfo
+                if not c.get("zi"):
+                    return {"skip": "no zone"}
+                try:
+                    d = (EPOCH_UTC + _dt.timedelta(microseconds=us)).astimezone(zoneinfo.ZoneInfo(c["zi"]))
+                    if (d - EPOCH_UTC) // US != us or d.utcoffset() is None:
+                        return {"skip": "zoneinfo does not carry this instant"}
+                except (OverflowError, ValueError):
+                    return {"skip": "instant not representable in " + c["zi"]}
+                return obj(_build_emd(c, c["date"], dt=d))
+            rec(name, f)
+        elif name == "datetime_subclass":
+            def f():
+                b = mk_datetime(*c["date"])
+                d = _DateTime(b.year, b.month, b.day, b.hour, b.minute, b.second, b.microsecond, tzinfo=b.tzinfo)
+                return obj(_build_emd(c, c["date"], dt=d))
+            rec(name, f)
+        elif name == "str_bytes_subclass":
+            rec(name, lambda: obj(_build_emd(c, c["date"], wrap=True)))
+        elif name in ("int_as_bool", "int_subclass"):
+            def f(name=name):
+                if c["visit"] is None or name == "int_as_bool" and c["visit"] != 1:
+                    return {"skip": "no visit / not 0 or 1"}
+                v = True if name == "int_as_bool" else _IntSub(c["visit"])
+                try:
+                    return obj(_build_emd(c, c["date"], visit=v))
+                except (TypeError, ValueError) as e:
+                    return {"refused": exc_class(e)}        # a wrong-typed argument may be refused
+            rec(name, f)
+    if naive_kind(c) == "offset_sometimes":
+        rec("partial_tzinfo", lambda: obj(_build_emd(c, c["date"], dt=carrier_datetime(c, c["date"]))))
+    return res
+
+
+def _build_emd(c, date, variant=0, naive=False, dt=None, wrap=False, explicit_id=None, visit=None):
     from swh.model.model import MetadataAuthority, MetadataAuthorityType, MetadataFetcher, RawExtrinsicMetadata
     from swh.model.swhids import ExtendedObjectType, ExtendedSWHID
     md = None if variant == 0 else {"some": "metadata", "n": 1}
+    S, B = (_Str, _Bytes) if wrap else (str, bytes)
+    if explicit_id is not None:
+        md_kw = {"id": explicit_id}
+    else:
+        md_kw = {}
     kw = {}
     for f in CTX_ORDER:
         v = c[f]
         if v is None:
             continue
         kw[f] = _core_swhid(*v) if f in SWHID_CTX else bytes.fromhex(v) if f == "path" else v
+    if visit is not None:
+        kw["visit"] = visit
+    kw.update(md_kw)
     return RawExtrinsicMetadata(
         target=ExtendedSWHID(object_type=ExtendedObjectType(c["ttype"]), object_id=bytes.fromhex(c["tid"])),
-        discovery_date=(EPOCH_NAIVE + _dt.timedelta(microseconds=date[0] + date[1])) if naive else mk_datetime(*date),
-        authority=MetadataAuthority(type=MetadataAuthorityType(AUTH[c["authority"]]), url=c["url"], metadata=md),
-        fetcher=MetadataFetcher(name=c["name"], version=c["version"], metadata=md),
-        format=c["format"], metadata=bytes.fromhex(c["metadata"]), **kw)
+        discovery_date=dt if dt is not None else (EPOCH_NAIVE + _dt.timedelta(microseconds=date[0] + date[1])) if naive else mk_datetime(*date),
+        authority=MetadataAuthority(type=MetadataAuthorityType(AUTH[c["authority"]]), url=S(c["url"]), metadata=md),
+        fetcher=MetadataFetcher(name=S(c["name"]), version=S(c["version"]), metadata=md),
+        format=S(c["format"]), metadata=B(bytes.fromhex(c["metadata"])), **kw)
 
 
 def impl_emd(c):
@@ -541,7 +797,7 @@ def impl_emd(c):
         with local_tz(c["tz2"]):
             try:
                 from swh.model import git_objects
-                o2 = _build_emd(c, c["date"])
+                o2 = _build_emd(c, c["date"], dt=carrier_datetime(c, c["date"]) if res.get("naive_accepted") else None)
                 res["tz2"] = {"id": o2.id.hex(), "manifest": git_objects.raw_extrinsic_metadata_git_object(o2).hex()}
             except Exception as e:
                 res["tz2"] = {"error": exc_class(e)}
@@ -553,16 +809,23 @@ def _impl_emd(c):
     d = mk_datetime(*c["date"])
     if abstract_datetime(d) != list(c["date"]):
         return {"error": "Other(harness: datetime abstraction is not exact)"}
-    if c.get("naive"):
+    if naive_flow(c):
         try:
-            o = _build_emd(c, c["date"], naive=True)
+            o = _build_emd(c, c["date"], dt=carrier_datetime(c, c["date"]))
         except Exception as e:
             return {"error": exc_class(e), "naive": True}
         return {"naive_accepted": True, "id": o.id.hex(), "manifest": git_objects.raw_extrinsic_metadata_git_object(o).hex()}
     try:
         o = _build_emd(c, c["date"])
     except Exception as e:
-        return {"error": exc_class(e)}
+        res = {"error": exc_class(e)}
+        if c["visit"] == 0:      # False is 0: must be refused as well
+            try:
+                _build_emd(c, c["date"], visit=False)
+                res["visit_false"] = "accepted"
+            except Exception as e2:
+                res["visit_false"] = exc_class(e2)
+        return res
     res = {"id": o.id.hex(), "manifest": git_objects.raw_extrinsic_metadata_git_object(o).hex(),
            "norm_date": abstract_datetime(o.discovery_date), "swhid": str(o.swhid())}
     try:
@@ -578,6 +841,57 @@ def _impl_emd(c):
         except Exception as e:
             alts.append({"error": exc_class(e)})
     res["alts"] = alts
+    res["routes"] = _emd_routes(c, o)
+    return res
+
+
+def _mk_extid(c, version=None, wrap=False, explicit_id=None):
+    from swh.model.model import ExtID
+    S, B = (_Str, _Bytes) if wrap else (str, bytes)
+    kw = {} if explicit_id is None else {"id": explicit_id}
+    return ExtID(extid_type=S(c["type"]), extid=B(bytes.fromhex(c["extid"])), target=_core_swhid(c["ttype"], c["tid"]),
+                 extid_version=c["version"] if version is None else version,
+                 payload_type=None if c["ptype"] is None else S(c["ptype"]),
+                 payload=None if c["payload"] is None else B(bytes.fromhex(c["payload"])), **kw)
+
+
+def _extid_routes(c, e):
+    from swh.model import git_objects
+    from swh.model.model import ExtID
+    res = {}
+
+    def obj(e2):
+        return {"id": e2.id.hex(), "manifest": git_objects.extid_git_object(e2).hex(), "eq": e2 == e and hash(e2) == hash(e)}
+    for name in c.get("routes", []):
+        try:
+            if name == "roundtrip":
+                d = e.to_dict()
+                d.pop("id")
+                res[name] = obj(ExtID.from_dict(d))
+            elif name == "evolve":
+                res[name] = obj(_mk_extid(c, version=c["version"] + 1).evolve(extid_version=c["version"]))
+            elif name == "recompute":
+                e.check()
+                e2 = _mk_extid(c, explicit_id=e.id)
+                e2.check()
+                res[name] = {"id": e.compute_hash().hex(), "manifest": git_objects.extid_git_object(e2).hex(), "eq": e2 == e and e2.id == e.id}
+            elif name == "str_bytes_subclass":
+                res[name] = obj(_mk_extid(c, wrap=True))
+            elif name in ("int_as_bool", "int_subclass"):
+                if name == "int_as_bool" and c["version"] not in (0, 1):
+                    res[name] = {"skip": "not 0 or 1"}
+                    continue
+                v = bool(c["version"]) if name == "int_as_bool" else _IntSub(c["version"])
+                try:
+                    e2 = ExtID(extid_type=c["type"], extid=bytes.fromhex(c["extid"]), target=_core_swhid(c["ttype"], c["tid"]),
+                               extid_version=v, payload_type=c["ptype"],
+                               payload=None if c["payload"] is None else bytes.fromhex(c["payload"]))
+                except (TypeError, ValueError) as ex:
+                    res[name] = {"refused": exc_class(ex)}
+                    continue
+                res[name] = obj(e2)
+        except Exception as ex:
+            res[name] = {"error": exc_class(ex)}
     return res
 
 
@@ -591,6 +905,7 @@ def impl_extid(c):
     except Exception as ex:
         return {"error": exc_class(ex)}
     res = {"id": e.id.hex(), "manifest": git_objects.extid_git_object(e).hex()}
+    res["routes"] = _extid_routes(c, e)
     try:
         d = {"extid_type": c["type"], "extid": bytes.fromhex(c["extid"]), "target": "swh:1:%s:%s" % (c["ttype"], c["tid"]),
              "payload_type": c["ptype"], "payload": None if c["payload"] is None else bytes.fromhex(c["payload"])}
@@ -637,8 +952,12 @@ def requests(c, ires):
         if "manifest" in ires:
             r.append("pextid " + hx(bytes.fromhex(ires["manifest"])))
         return r
-    if c.get("naive"):
-        return []       # a naive datetime is not an input of the model
+    if naive_flow(c):
+        if naive_kind(c) == "offset_raises":
+            return []       # a carrier that raises is not an input of the model: its exception propagates
+        w = emd_request(c, c["date"]).split(" ")
+        # mk_emd_in m (DNaive wall) / (DOffsetless wall)
+        return [" ".join(["emdin", "n" if naive_kind(c) == "tzinfo_none" else "o", str(c["date"][0] + c["date"][1]), w[1]] + w[4:])]
     r = [emd_request(c, c["date"])] + [emd_request(c, a) for a in c["alts"]]
     if "manifest" in ires:
         r.append("pemd " + hx(bytes.fromhex(ires["manifest"])))
@@ -651,8 +970,8 @@ def model(c, resp):
         if len(resp) > 1:
             res["parsed_impl_manifest"] = resp[1]
         return res
-    if c.get("naive"):
-        return {"main": "err ValueError"}     # normalize_discovery_date: "discovery_date must be a timezone-aware datetime"
+    if naive_flow(c):
+        return {"main": resp[0] if resp else "err " + RAISES_CLASS}
     res = {"main": resp[0], "alts": resp[1:4]}
     if len(resp) > 4:
         res["parsed_impl_manifest"] = resp[4]
@@ -660,6 +979,39 @@ def model(c, resp):
 
 
 # ------------------------------------------------------------------ property oracle (on the implementation)
+ROUTE_TEXT = {"int_as_bool": "the int field (extid_version / visit) given as a bool",
+              "int_subclass": "the int field (extid_version / visit) given as an int subclass whose str() is not decimal",
+              "partial_tzinfo": "the same written date carried by a tzinfo that gives this offset (and none for other dates)",
+              "from_dict": "from_dict() on the equivalent dictionary", "from_dict_none_keys": "from_dict() with the unset context keys present as None",
+              "git_object_dict": "the (deprecated) dictionary argument of raw_extrinsic_metadata_git_object",
+              "old_schema": "from_dict() on the old schema (with a 'type' key)", "roundtrip": "to_dict() -> from_dict() without the id",
+              "evolve": "evolve() from the object of another second / version", "recompute": "compute_hash() / check() / the id passed explicitly",
+              "zoneinfo": "the same instant carried by a zoneinfo.ZoneInfo tzinfo", "datetime_subclass": "the same datetime as a datetime subclass",
+              "str_bytes_subclass": "str / bytes subclasses as field values"}
+
+
+def _routes_verdict(what, ires, c=None, us=None):
+    """every other route to the same object gives the same id (= SHA-1 of the same documented manifest) and an equal object"""
+    for name, r in sorted(ires.get("routes", {}).items()):
+        how = ROUTE_TEXT.get(name, name)
+        if "skip" in r or "refused" in r:
+            continue
+        if "error" in r:
+            return "%s: %s raised %s" % (what, how, r["error"])
+        if "expect_tid" in r:       # old schema, origin named by its URL: another target, its own documented manifest
+            want = emd_spec_manifest(dict(c, ttype="ori", tid=r["expect_tid"]), us)
+            if bytes.fromhex(r["manifest"]) != want or r["id"] != hashlib.sha1(want).hexdigest():
+                return "%s: %s does not give the documented manifest / id for the origin swh:1:ori:sha1(url)" % (what, how)
+            continue
+        if r["manifest"] != ires["manifest"]:
+            return "%s: %s gives another manifest than the constructor" % (what, how)
+        if r["id"] != ires["id"]:
+            return "%s: %s gives the id %s, the constructor %s (one manifest)" % (what, how, r["id"], ires["id"])
+        if not r["eq"]:
+            return "%s: %s gives an object that is not equal to the constructor's" % (what, how)
+    return None
+
+
 def oracle_extid(c, ires, mres):
     valid = extid_expected_valid(c)
     encodable = is_ascii(c["type"]) and (c["ptype"] is None or is_ascii(c["ptype"]))
@@ -678,6 +1030,9 @@ def oracle_extid(c, ires, mres):
         return "ExtID manifest is not the documented header list"
     if ires["id_from_dict"] != ires["id"]:
         return "ExtID id differs between constructor and from_dict"
+    why = _routes_verdict("ExtID", ires)
+    if why:
+        return why
     # optional lines exactly when set: the keys at the start of the (non-continuation) lines
     body = man.split(b"\x00", 1)[1]
     keys = [ln.split(b" ", 1)[0] for ln in body.split(b"\n")[:-1] if not ln.startswith(b" ")]
@@ -700,13 +1055,17 @@ def oracle_extid(c, ires, mres):
 
 def oracle_emd(c, ires, mres):
     valid = emd_expected_valid(c)
-    if c.get("naive"):
+    if naive_flow(c):
         if ires.get("naive_accepted"):
-            return "a naive discovery_date (no tzinfo) was accepted under local zone %s: the id then depends on the machine's timezone" % c.get("tz")
+            other = ires.get("tz2", {})
+            return ("a discovery_date without UTC offset (%s) was accepted: the id depends on the machine's timezone (%s under "
+                    "local zone %s, %s under %s)" % (naive_kind(c), ires["id"], c.get("tz"), other.get("id", other.get("error")), c.get("tz2")))
         return None       # the exception class is compared in compare()
     if "error" in ires:
         if ires["error"].startswith("Other(harness"):
             return None
+        if ires.get("visit_false") == "accepted":
+            return "visit=0 is refused but visit=False (the same integer) is accepted"
         if not valid:
             return None if ires["error"] == "ValueError" else "inadmissible context rejected with " + ires["error"]
         return "a valid RawExtrinsicMetadata was rejected with " + ires["error"]
@@ -724,6 +1083,9 @@ def oracle_emd(c, ires, mres):
         return "the same object gets another id / manifest when the machine's local zone is %s instead of %s" % (c["tz2"], c.get("tz"))
     if ires["id_variant"] != ires["id"]:
         return "authority.metadata / fetcher.metadata influence the id"
+    why = _routes_verdict("metadata object", ires, c, us)
+    if why:
+        return why
     if ires["norm_date"] != [us - us % 10**6, 0]:
         return "discovery_date is not normalised to the UTC second"
     for a, ra in zip(c["alts"], ires["alts"]):
@@ -800,6 +1162,9 @@ def compare(c, ires, mres):
 
 def shrink(c):
     if c["kind"] == "extid":
+        if len(c.get("routes", [])) > 1:
+            for r in c["routes"]:
+                yield dict(c, routes=[r])
         for k in ("ptype", "payload"):
             if c[k] is not None:
                 yield dict(c, **{k: None})
@@ -815,8 +1180,11 @@ def shrink(c):
             yield dict(c, type=c["type"][:len(c["type"]) // 2])
             yield dict(c, type=c["type"][1:])
         return
-    if c.get("tz2"):
+    if c.get("tz2") and not naive_kind(c):      # an accepted offset-less date is shown under both zones: keep the second
         yield dict(c, tz2=None)
+    if len(c.get("routes", [])) > 1:
+        for r in c["routes"]:
+            yield dict(c, routes=[r])
     if c.get("tz") not in (None, "UTC", "AAA-3", "YYY5"):
         yield dict(c, tz="AAA-3")
         yield dict(c, tz="YYY5")
@@ -882,7 +1250,7 @@ def coq_cases(cases):
     for kind in ("emd", "extid"):
         n = 0
         for c in cases:
-            if c["kind"] != kind or n >= COQ_PER_KIND or c.get("naive"):
+            if c["kind"] != kind or n >= COQ_PER_KIND or naive_flow(c):
                 continue
             rq = requests(c, {})[0]
             if len(rq) <= 1200:
